@@ -295,7 +295,7 @@ pub fn property() -> Property {
         subs: vec![
             Box::new(PropSub {
                 name: "C17/rank-select",
-                quick: 48_000,
+                quick: 160_000,
                 thorough: 1_600_000,
                 shards_quick: 16,
                 shards_thorough: 16,
@@ -319,7 +319,7 @@ pub fn property() -> Property {
             Box::new(ExhSub { name: "C17/rank-select-exhaustive", enumerate, check, must_reach: &["all zero", "all one", "last byte padded"] }),
             Box::new(PropSub {
                 name: "C17/wavelet",
-                quick: 96_000,
+                quick: 300_000,
                 thorough: 2_400_000,
                 shards_quick: 16,
                 shards_thorough: 16,
